@@ -17,6 +17,21 @@ TB="$MODCACHE/github.com/weedbox/timebank@v0.0.0-20230713013837-bd7a6f808e3e"
 [ -d "$SS" ] && [ -d "$TB" ] || fail "module cache lacks syncsaga/timebank"
 cp -r "$SS" "$SCR/syncsaga" && cp -r "$TB" "$SCR/timebank" && chmod -R u+w "$SCR/syncsaga" "$SCR/timebank" || fail "copy deps"
 rm -f "$SCR"/syncsaga/*_test.go "$SCR"/timebank/*_test.go
+# pokerface (hand rules) runs unmodified except that its map iterations go through simrt.MapKeys:
+# Go's randomised map order inside the rule engine (pot contributors) would otherwise break replay.
+PF="$MODCACHE/github.com/weedbox/pokerface@v0.1.10"
+[ -d "$PF" ] || fail "module cache lacks pokerface"
+mkdir -p "$SCR/pokerface" && cp "$PF"/*.go "$SCR/pokerface/" && cp -r "$PF/pot" "$PF/settlement" "$PF/combination" "$SCR/pokerface/" && chmod -R u+w "$SCR/pokerface" || fail "copy pokerface"
+find "$SCR/pokerface" -name '*_test.go' -delete
+cat > "$SCR/pokerface/go.mod" <<EOT
+module github.com/weedbox/pokerface
+
+go 1.19
+
+require github.com/google/uuid v1.3.1
+require verif.local/simrt v0.0.0
+replace verif.local/simrt => ../simrt
+EOT
 cp -r "$VERIF/simrt" "$SCR/simrt" && cp -r "$VERIF/sim" "$SCR/sim" || fail "copy harness"
 # module wiring
 cat >> "$SCR/pokertable/go.mod" <<EOT
@@ -25,6 +40,7 @@ require verif.local/simrt v0.0.0
 replace verif.local/simrt => ../simrt
 replace github.com/weedbox/syncsaga => ../syncsaga
 replace github.com/weedbox/timebank => ../timebank
+replace github.com/weedbox/pokerface => ../pokerface
 EOT
 cat >> "$SCR/syncsaga/go.mod" <<EOT
 
@@ -47,6 +63,8 @@ run_instr() { # dir name patterns...
   base=$(echo "$out" | sed -n 's/.*next base \([0-9]*\)).*/\1/p')
   [ -n "$base" ] || { echo "$out" >&2; fail "instr $name: no base"; }
 }
+cp "$SCR/sim/go.sum" "$SCR/pokerface/go.sum" 2>/dev/null
+run_instr "$SCR/pokerface" pokerface ./ ./pot ./settlement ./combination
 run_instr "$SCR/timebank" timebank ./
 run_instr "$SCR/syncsaga" syncsaga ./
 run_instr "$SCR/pokertable" pokertable ./ ./seat_manager ./open_game_manager ./actor
